@@ -189,6 +189,8 @@ def run(repo: Repo, rep: Report, tier: str) -> None:
     # ---- positive control: a synthetic generator with one unescaped RAW hole must be flagged
     _positive_control(repo, rep)
     rep.notes.append("hole kinds: RAW/LITERAL need repr; IDENT, TYPEREF_*, CODE, FIELDNAME, CLASSNAME, ENUMNAME, DEFAULT_LITERAL are library-made or identifier-safe")
+    if getattr(rep, "borrowed", False):
+        return  # another property borrows main-body rules only
     # rules of sibling properties that are necessary conditions of this one as well (same rule ids)
     from ..core.report import Only
     from . import c01 as _c01
@@ -197,6 +199,10 @@ def run(repo: Repo, rep: Report, tier: str) -> None:
     _c12.run(repo, Only(rep, {"R12.1i"}), tier)
     from . import c17 as _c17
     _c17._type_name_lossless(repo, Only(rep, {"R17.12"}))
+    from ..core.report import Only as _OnlyX
+    from ..core import corpus as _corpusX
+    from . import c02 as _c02x
+    _c02x.run(repo, _OnlyX(rep, {"R02.5"}), tier)
 
 POSITIVE = '''
 def _positive(self, fname, metadata):
@@ -237,3 +243,6 @@ LEVEL_TEXT += _ADD9
 _ADD21 = ' Borrowed: R17.12.'
 EXPLANATION += _ADD21
 LEVEL_TEXT += _ADD21
+_ADD22 = ' Borrowed: R02.5 (TypedDict helper body, keys included).'
+EXPLANATION += _ADD22
+LEVEL_TEXT += _ADD22
